@@ -43,6 +43,10 @@ type TUDPTransport struct {
 	writeBuf    bytes.Buffer
 	readByteBuf []byte
 	closed      atomic.Bool
+	// overflow is set when a write was refused because the message would not
+	// fit into one datagram. The message is then incomplete: further writes
+	// are refused too and the next Flush discards it instead of sending it.
+	overflow bool
 }
 
 // NewTUDPClientTransport creates a net.UDPConn-backed TTransport for Thrift clients
@@ -173,7 +177,8 @@ func (p *TUDPTransport) Write(buf []byte) (int, error) {
 	if !p.IsOpen() {
 		return 0, thrift.NewTTransportException(thrift.NOT_OPEN, "Connection not open")
 	}
-	if p.writeBuf.Len()+len(buf) > MaxLength {
+	if p.overflow || p.writeBuf.Len()+len(buf) > MaxLength {
+		p.overflow = true
 		return 0, thrift.NewTTransportException(thrift.INVALID_DATA, "Data does not fit within one UDP packet")
 	}
 	n, err := p.writeBuf.Write(buf)
@@ -185,7 +190,8 @@ func (p *TUDPTransport) WriteByte(b byte) error {
 	if !p.IsOpen() {
 		return thrift.NewTTransportException(thrift.NOT_OPEN, "Connection not open")
 	}
-	if p.writeBuf.Len()+1 > MaxLength {
+	if p.overflow || p.writeBuf.Len()+1 > MaxLength {
+		p.overflow = true
 		return thrift.NewTTransportException(thrift.INVALID_DATA, "Data does not fit within one UDP packet")
 	}
 
@@ -198,7 +204,8 @@ func (p *TUDPTransport) WriteString(s string) (int, error) {
 	if !p.IsOpen() {
 		return 0, thrift.NewTTransportException(thrift.NOT_OPEN, "Connection not open")
 	}
-	if p.writeBuf.Len()+len(s) > MaxLength {
+	if p.overflow || p.writeBuf.Len()+len(s) > MaxLength {
+		p.overflow = true
 		return 0, thrift.NewTTransportException(thrift.INVALID_DATA, "Data does not fit within one UDP packet")
 	}
 
@@ -210,6 +217,15 @@ func (p *TUDPTransport) WriteString(s string) (int, error) {
 func (p *TUDPTransport) Flush() error {
 	if !p.IsOpen() {
 		return thrift.NewTTransportException(thrift.NOT_OPEN, "Connection not open")
+	}
+
+	if p.overflow {
+		// A write of this message was refused: sending the part that was
+		// accepted would deliver a corrupt message, and keeping it would
+		// corrupt the next one. Drop it.
+		p.overflow = false
+		p.writeBuf.Reset()
+		return thrift.NewTTransportException(thrift.INVALID_DATA, "Data does not fit within one UDP packet: message discarded")
 	}
 
 	_, err := p.conn.Write(p.writeBuf.Bytes())
